@@ -47,6 +47,7 @@ ASSUMPTIONS = [
 ]
 MIN_DISTINCT = {'quick': 500, 'thorough': 8000}
 CASE_TIMEOUT = 120
+SHARD_TIMEOUT = {'quick': 2400, 'thorough': 14400}  # generous: the machine is shared; a watchdog firing is inconclusive, never a verdict
 N_RANDOM = {'quick': 1200, 'thorough': 15000}
 
 
